@@ -428,8 +428,11 @@ func (c *c13) exec(line string) (obs string, suffix string) {
 		lb := c.f.Bal(a, c.liq)
 		_, err = c.f.Deliver(&irotypes.MsgBuyExactSpend{Buyer: a.String(), PlanId: c.pid(), Spend: spend, MinOutTokensAmount: c13Int(fl[3])})
 		cls = c.class(err)
-		if cls == "other" && curveErr {
-			cls = "curve"
+		if (cls == "other" || cls == "panic") && curveErr {
+			cls = "curve" // TokensForExactInAmount returned an error or panicked (LegacyDec overflow): the tx fails
+			if IsPanic(err) {
+				c.r.Hit("bes/newton-panic")
+			}
 		}
 		post = append(post, func() { c.afterTrade(kind, ai, a, planBefore, hadPlan, err, spend, net, lb) })
 	case "sell":
@@ -542,7 +545,7 @@ func (c *c13) monitorState() {
 	}
 	if !p.IsSettled() {
 		bal := c.f.Bal(p.GetAddress(), c.liq)
-		val := c.curve.Cost(math.ZeroInt(), p.SoldAmt)
+		val := c13SafeCost(c.curve, math.ZeroInt(), p.SoldAmt)
 		if bal.AddRaw(int64(c.trades)).LT(val) {
 			sig := "C13/solvent/plan-balance-below-curve-value/buy-sell-only"
 			if c.besOK > 0 {
@@ -607,7 +610,7 @@ func (c *c13) afterTrade(kind string, ai int, a sdk.AccAddress, pb irotypes.Plan
 	// exact-spend clause
 	if kind == "bes" {
 		t := pa.SoldAmt.Sub(pb.SoldAmt)
-		cost := c.curve.Cost(pb.SoldAmt, pa.SoldAmt)
+		cost := c13SafeCost(c.curve, pb.SoldAmt, pa.SoldAmt)
 		if cost.GT(spend) {
 			c.viol("C13/exact_spend/cost-exceeds-spend", fmt.Sprintf("L=%d spend %s granted %s tokens which cost %s", c.L, spend, t, cost))
 		}
@@ -726,7 +729,8 @@ func (c *c13) execSweep(fl []string) (string, string) {
 	func() {
 		defer func() {
 			if e := recover(); e != nil {
-				out = "panic"
+				out = "err" // LegacyDec overflow inside the Newton iteration: same class as a returned error
+				c.r.Hit("xs/newton-panic")
 			}
 		}()
 		if irotypes.ScaleFromBase(sold, 18).LT(math.LegacyOneDec()) || !net.IsPositive() {
